@@ -168,7 +168,11 @@ _uid = itertools.count()
 
 
 def run_trace(tid, shape, events, sigs):
-    m = Mode(shape, next(_uid), sigs)
+    try:
+        m = Mode(shape, next(_uid), sigs)
+    except Exception as e:  # noqa  - defining / constructing the mode raised
+        return {"id": tid, "shape": shape, "extra": {"sigs": sigs},
+                "steps": [{"in": {"e": "raised"}, "out": {"cb": [], "err": "%s: %s" % (type(e).__name__, e)}}]}
     steps = []
     for ev in events:
         ev = {k: v for k, v in ev.items() if k != "x"}
